@@ -275,7 +275,30 @@ def normalize(ivs):
                     out[-1] = (plo, plc, hi, hc)
                 continue
         out.append((lo, lc, hi, hc))
+    if len(out) > MAX_IVS:
+        out = _coarsen(out)
     return tuple(out)
+
+
+MAX_IVS = 8
+
+
+def _coarsen(out):
+    """Bound the number of pieces of a union: close the narrowest gaps first, gaps that contain 0 last (the exclusion of 0 is what
+    divisions and logarithms depend on).  Sound: the result is a superset."""
+    out = list(out)
+    while len(out) > MAX_IVS:
+        best, bestkey = None, None
+        for i in range(len(out) - 1):
+            a, b = out[i], out[i + 1]
+            gap = b[0] - a[2]
+            has0 = a[2] <= 0 <= b[0]
+            key = (has0, gap)
+            if bestkey is None or key < bestkey:
+                best, bestkey = i, key
+        a, b = out[best], out[best + 1]
+        out[best:best + 2] = [(a[0], a[1], b[2], b[3])]
+    return out
 
 
 # ---------------------------------------------------------------------------------------- arithmetic on finite intervals
